@@ -1,12 +1,13 @@
 """C01 — configuration of tools/check.py and text of the MANIFEST entry."""
 
 PROP = {
-    "targets": ["Props/C01.vo", "Corr/CorrCore.vo", "Corr/CorrC05b.vo"],
-    "cone": ["BC/CompileProofs.v", "BC/RunProofs.v", "BC/SemFacts.v", "BC/SchemesProofs.v", "Bridge/BrSchemes.v"],
+    "targets": ["Props/C01.vo", "Corr/CorrCore.vo", "Corr/CorrC05b.vo", "Bridge/BrC0809.vo"],
+    "cone": ["BC/CompileProofs.v", "BC/RunProofs.v", "BC/SemFacts.v", "BC/SchemesProofs.v", "Bridge/BrSchemes.v", "Bridge/BrC0809.v"],
     "harness": "c01",
     "mismatch_div": 16,
     "failure_bits": 8,
-    "trusted": ["reference semantics Sem/Sem.v + primitive operations Sem/Prim.v (hand-written from the language definition and vm/runtime.go; executed against the implementation on every run)",
+    "trusted": ["purity premise of the functional model (no state survives a Compile / Run call): Bridge/BrC0809.v over the regenerated write / call / package-variable inventory - a cache or other package-level state breaks it",
+                "reference semantics Sem/Sem.v + primitive operations Sem/Prim.v (hand-written from the language definition and vm/runtime.go; executed against the implementation on every run)",
                 "harness environment universe mirrored in Corr/Universe.v; regexp and math.Pow are oracle tables computed by Go"],
     "assumptions": ["regexp matching and math.Pow are oracles", "environment values come from the harness universe (one struct type with every numeric kind, strings, slices, maps, nested structs, pointers, functions, methods)"],
     "explanation": "compile_correct is proved for all expressions; the Go compiler's output is decoded and compared with the model compiler on every generated program; model VM and reference semantics are both compared with vm.Run",
